@@ -110,7 +110,7 @@ example : (exec Store.init { dry := true, clauses := [.createConcept 1 1 1 1 fal
 /-- the same for the record-lifecycle clauses: a dry run of SUPERSEDE + CORRECT + TRANSITION + SET
 RETENTION previews five changes and leaves every row, the journal and the version log alone -/
 example :
-    let hist : List Stmt := [{ clauses := [.createConcept 1 1 1 1 false, .createConcept 2 2 2 2 false,
+    let hist : List Stmt := [{ dry := false, clauses := [.createConcept 1 1 1 1 false, .createConcept 2 2 2 2 false,
         .ensure (some 3) (.h 1) 5 (.h 2) none false, .createRec .assertion 4 55 [.h 3, .h 1] false,
         .createRec .assertion 5 66 [.h 3, .h 1] false, .createRec .evidence 6 1 [] false,
         .createRec .evidence 7 2 [] false, .createRec .activity 8 3 [] false] }]
@@ -127,7 +127,7 @@ example :
                ⟨⟨.evidence, 1⟩, .correct, 2⟩, ⟨⟨.evidence, 2⟩, .correct, 2⟩, ⟨⟨.activity, 1⟩, .transition, 2⟩] ∧
     -- a SUPERSEDE whose replacement is about another Proposition is refused *after* the old row was
     -- edited in the staged copy: nothing of that edit remains
-    (exec (run Store.init hist) { clauses := [.ensure (some 1) (.id ⟨.concept, 1⟩) 7 (.id ⟨.concept, 2⟩) none false,
+    (exec (run Store.init hist) { dry := false, clauses := [.ensure (some 1) (.id ⟨.concept, 1⟩) 7 (.id ⟨.concept, 2⟩) none false,
         .createRec .assertion 2 44 [.h 1, .id ⟨.concept, 1⟩] false,
         .supersede (.id ⟨.assertion, 1⟩) (.h 2) none] }).2 = .refusedPlan .invalid := by decide
 
